@@ -199,6 +199,12 @@ def _cmp(out, shape, want: FA, gb_case, hint, what):
         require(ok, "%s: affine %r, expected exactly %r", what, tuple(out.affine)[:6], want.floats())
     else:
         err = coeff_close(out.affine, want, scale_hint=[h for h in (hint if isinstance(hint, (list, tuple)) else [256.0])])
+        if err is not None and isinstance(hint, (list, tuple)) and len(hint) > 1:
+            # absolute term-size bound for translations that result from cancelling products
+            g6 = [float(v) for v in tuple(out.affine)[:6]]
+            w6 = want.floats()
+            if all(abs(a - b) <= 64 * EPS * (abs(b) + hint[-1]) for a, b in zip(g6, w6)):
+                err = None
         require(err is None, "%s: %s", what, err)
 
 
@@ -400,14 +406,18 @@ def o_ops(case, T):
     elif op == "center_pixel":
         out = gb.center_pixel
         _cmp(out, (1, 1), A * FA.translation(nx // 2, ny // 2), g, [nx + ny], "center_pixel")
-    elif op == "rmul":
+    elif op in ("rmul", "mul"):
         Tm = mk_affine(P["T"])
-        out = Tm * gb
-        _cmp(out, (ny, nx), FA.of(P["T"]) * A, g, "float", "A*gbox")
-    elif op == "mul":
-        Tm = mk_affine(P["T"])
-        out = gb * Tm
-        _cmp(out, (ny, nx), A * FA.of(P["T"]), g, "float", "gbox*A")
+        # the product's translation is a sum of terms that may cancel: tolerance from the size of the terms
+        tmag = max(abs(v) for v in (P["T"][2], P["T"][5], g["affine"][2], g["affine"][5]))
+        lmag = max(abs(v) for v in (P["T"][0], P["T"][1], P["T"][3], P["T"][4], g["affine"][0], g["affine"][1], g["affine"][3], g["affine"][4]))
+        hint = [256.0, tmag * (1 + lmag)]
+        if op == "rmul":
+            out = Tm * gb
+            _cmp(out, (ny, nx), FA.of(P["T"]) * A, g, hint if g["family"] != "exact" else "float", "A*gbox")
+        else:
+            out = gb * Tm
+            _cmp(out, (ny, nx), A * FA.of(P["T"]), g, hint if g["family"] != "exact" else "float", "gbox*A")
     require(out.crs == gb.crs, "%s changed the CRS: %r -> %r", op, gb.crs, out.crs)
     require(isinstance(out, GeoBox), "%s returned %r", op, type(out))
     _check_views_of(out, op)
@@ -471,14 +481,16 @@ def o_gcp(case, T):
     if n < 4:
         bend = 0.0  # 3 points: affine fit only
 
+    sb = min(math.hypot(A.a, A.d), math.hypot(A.b, A.e))  # bend relative to the SHORTEST pixel edge: keeps the map regular
+
     def truth(x, y):
         # the bend stays inside the polynomial family that will be fitted (bilinear for 4-8 points, biquadratic
         # for >= 9), so the control points determine the map and "fit error" is rounding only
         wx, wy = A * (x, y)
         if bend:
             uu, vv = x / W, y / H
-            wx += s * W * bend * uu * vv
-            wy += s * H * bend * ((uu * uu - vv) if n >= 9 else -uu * vv)
+            wx += sb * min(W, H) * bend * uu * vv
+            wy += sb * min(W, H) * bend * ((uu * uu - vv) if n >= 9 else -uu * vv)
         return wx, wy
 
     wld = np.asarray([truth(x, y) for x, y in pts])
